@@ -139,10 +139,11 @@ func rtAdmitCell(t *testing.T, rec *Rec, g *Gates, scn string, cell map[string]a
 	so.SetTransports(types.NewSet("polling", "websocket"))
 	so.SetAllowEIO3(eio3)
 	armed := false
+	hookText := "hook says no to " + scn // the hook's own text: different for every cell of the process
 	if hook != "none" {
 		so.SetAllowRequest(func(*types.HttpContext) error {
 			if armed && hook == "deny" {
-				return errors.New("hook says no")
+				return errors.New(hookText)
 			}
 			return nil
 		})
@@ -279,6 +280,7 @@ func rtAdmitCell(t *testing.T, rec *Rec, g *Gates, scn string, cell map[string]a
 		_, in := w.Srv.Clients().Load(sg.Sid)
 		obs["closingEnded"] = !in && w.Sock(sg.Sid) != nil && w.Sock(sg.Sid).ReadyState() == "closed"
 	}
+	obs["hooktext"] = hookText
 	rec.Log("rt.cell", "scn", scn, "cell", cell, "obs", obs)
 	w.quietEnd()
 }
@@ -290,9 +292,10 @@ func rtWtCell(t *testing.T, rec *Rec, g *Gates, scn string, cell map[string]any)
 	so := &config.ServerOptions{}
 	so.SetTransports(types.NewSet("polling", "websocket", "webtransport"))
 	armed := false
+	hookText := "hook says no to " + scn
 	so.SetAllowRequest(func(*types.HttpContext) error {
 		if armed && hook == "deny" {
-			return errors.New("hook says no")
+			return errors.New(hookText)
 		}
 		return nil
 	})
@@ -335,6 +338,7 @@ func rtWtCell(t *testing.T, rec *Rec, g *Gates, scn string, cell map[string]any)
 	_, in := w.Srv.Clients().Load(sp.Sid)
 	obs["disturbed"] = !(so2 != nil && so2.ReadyState() == "open" && in)
 	obs["upgrading"] = so2 != nil && so2.Upgrading()
+	obs["hooktext"] = hookText
 	rec.Log("rt.cell", "scn", scn, "cell", cell, "obs", obs)
 	w.quietEnd()
 }
